@@ -195,8 +195,14 @@ func createDefault(sch Node) datanode.DataNode {
 		return datanode.CreateDataNode(v.Name(), nil, []string{val})
 	}
 
+	// The node is absent, so none of its choices has a configured case:
+	// only the nodes of default cases are active defaults.
+	noCfg := func(Node) bool { return false }
 	var children []datanode.DataNode
 	for _, ch := range sch.DefaultChildren() {
+		if isAChoice(sch, ch) && !IsActiveDefault(sch, ch.Name(), noCfg) {
+			continue
+		}
 		children = append(children, createDefault(ch))
 	}
 
